@@ -60,7 +60,7 @@ class EndpointDesc(BaseModel):
         match (self.sbr_port_protocol, self.addr_range):
             case (None, _):
                 return self
-            case (_, None):
+            case (_, None) | (_, []):
                 raise ValueError("Endpoint is a Subordinate and requires an address range")
         return self
 
